@@ -188,7 +188,7 @@ class TT():
             else:
                 # TT-decomposition with prescribed size
                 # perform reshape first
-                self.__N = shape
+                self.__N = list(shape)
                 self.cores, self.__R = to_tt(tn.reshape(
                     source, shape), self.__N, eps, rmax, is_sparse=False)
                 self.__is_ttm = False
@@ -218,7 +218,7 @@ class TT():
             else:
                 # TT-decomposition with prescribed size
                 # perform reshape first
-                self.__N = shape
+                self.__N = list(shape)
                 self.cores, self.__R = to_tt(tn.reshape(
                     source, shape), self.__N, eps, rmax, is_sparse=False)
                 self.__is_ttm = False
